@@ -1,5 +1,6 @@
 import TF.Proofs.U32s
 import TF.Gen.Consts
+import TF.Proofs.GenBridgeU32s
 /-!
 # C19 — fixed-width `U32s<N>` integers compute exactly or panic, never wrap
 
@@ -140,5 +141,70 @@ theorem decode_strict (N : Nat) (s : List Nat) :
     decode N s = if WF N s then some s else none := decode_eq N s
 example : decode 2 [5, 4294967295] = some [5, 4294967295] ∧ decode 2 [5, 4294967296] = none
     ∧ decode 2 [5] = none ∧ decode 2 [1, 2, 3] = none ∧ decode 0 [] = some [] := by decide
+
+end TF.C19
+
+/-! ## regenerated-from-source bridge
+
+The limb loops `Add`, `Sub`, `mul_two`, `div_two` (and `Mul`, `get_bit`, `set_bit`, evaluated by the driver) are **also
+regenerated from `u32s.rs` on every run** (`TF/Gen/U32sLoops.lean`, `TF.Gen.Loops.u32s_*`, written by
+`tools/rs2lean_loops.py`): `f N a b` is the result of a build that does not panic (wrapping arithmetic), `f_ok N a b` is
+true iff every `assert!` holds and every array index is in range, i.e. iff the Rust code does not panic.  The theorems
+below (proofs in `TF/Proofs/GenBridgeU32s.lean`) say that "value if ok, panic otherwise" is exactly the hand model, for
+**every** `N` and all limb lists of length `N`; the `…_transfer` corollaries restate the C19 theorems for the
+regenerated code: *exact or panic, never wraps*.  A change of the Rust text changes `TF.Gen.Loops.u32s_*`; these
+theorems are then re-checked or break. -/
+namespace TF.C19
+open TF.U32s TF.Gen
+
+/-- regenerated `Add for U32s<N>` = hand model -/
+theorem gen_add_eq_model (N : Nat) (a b : List Nat) (ha : a.length = N) (hb : b.length = N) :
+    (if Loops.u32s_add_ok N a b then some (Loops.u32s_add N a b) else none) = add a b :=
+  TF.GenBridge.U32s.gen_add_eq N a b ha hb
+example : Loops.u32s_add 3 [4294967295, 4294967295, 0] [1, 0, 0] = [0, 0, 1] ∧
+    Loops.u32s_add_ok 3 [4294967295, 4294967295, 0] [1, 0, 0] = true ∧
+    Loops.u32s_add_ok 2 [4294967295, 4294967295] [1, 0] = false := by decide
+
+/-- regenerated `Sub for U32s<N>` = hand model -/
+theorem gen_sub_eq_model (N : Nat) (a b : List Nat) (ha : a.length = N) (hb : b.length = N) :
+    (if Loops.u32s_sub_ok N a b then some (Loops.u32s_sub N a b) else none) = sub a b :=
+  TF.GenBridge.U32s.gen_sub_eq N a b ha hb
+example : Loops.u32s_sub 3 [0, 0, 1] [1, 0, 0] = [4294967295, 4294967295, 0] ∧
+    Loops.u32s_sub_ok 3 [0, 0, 1] [1, 0, 0] = true ∧ Loops.u32s_sub_ok 2 [0, 0] [1, 0] = false := by decide
+
+/-- regenerated `mul_two` = hand model -/
+theorem gen_mul_two_eq_model (N : Nat) (a : List Nat) (ha : a.length = N) :
+    (if Loops.u32s_mul_two_ok N a then some (Loops.u32s_mul_two N a) else none) = mulTwo a :=
+  TF.GenBridge.U32s.gen_mul_two_eq N a ha
+example : Loops.u32s_mul_two 2 [2147483648, 0] = [0, 1] ∧ Loops.u32s_mul_two_ok 2 [2147483648, 0] = true ∧
+    Loops.u32s_mul_two_ok 2 [0, 2147483648] = false := by decide
+
+/-- regenerated `div_two` (a `for i in (0..N).rev()` loop) = hand model, all well-formed operands -/
+theorem gen_div_two_eq_model {N : Nat} {a : List Nat} (ha : WF N a) :
+    (if Loops.u32s_div_two_ok N a then some (Loops.u32s_div_two N a) else none) = divTwo a :=
+  TF.GenBridge.U32s.gen_div_two_eq N a ha.1 ha.2
+example : WF 3 [1, 1, 1] ∧ Loops.u32s_div_two 3 [1, 1, 1] = [2147483648, 2147483648, 0] ∧
+    Loops.u32s_div_two_ok 3 [1, 1, 1] = true := by decide
+
+/-- **transfer**: the regenerated `Add`/`Sub`/`mul_two`/`div_two` compute exactly or panic, never wrap — the C19
+    statements for the code as it is in the source now -/
+theorem gen_limb_loops_transfer {N : Nat} {a b : List Nat} (ha : WF N a) (hb : WF N b) :
+    ((if Loops.u32s_add_ok N a b then some (Loops.u32s_add N a b) else none)
+        = if val a + val b < W ^ N then some (ofNat N (val a + val b)) else none) ∧
+    ((if Loops.u32s_sub_ok N a b then some (Loops.u32s_sub N a b) else none)
+        = if val b ≤ val a then some (ofNat N (val a - val b)) else none) ∧
+    ((if Loops.u32s_mul_two_ok N a then some (Loops.u32s_mul_two N a) else none)
+        = if 2 * val a < W ^ N then some (ofNat N (2 * val a)) else none) ∧
+    (Loops.u32s_div_two_ok N a = true ∧ Loops.u32s_div_two N a = ofNat N (val a / 2)) := by
+  refine ⟨?_, ?_, ?_, ?_⟩
+  · rw [gen_add_eq_model N a b ha.1 hb.1]; exact add_spec ha hb
+  · rw [gen_sub_eq_model N a b ha.1 hb.1]; exact sub_spec ha hb
+  · rw [gen_mul_two_eq_model N a ha.1]; exact mul_two_spec ha
+  · have h := gen_div_two_eq_model ha
+    rw [div_two_spec ha] at h
+    by_cases hk : Loops.u32s_div_two_ok N a = true
+    · rw [if_pos hk] at h; exact ⟨hk, Option.some.inj h⟩
+    · rw [if_neg hk] at h; cases h
+example : WF 2 [4294967295, 1] ∧ WF 2 [1, 0] := by decide
 
 end TF.C19
